@@ -22,7 +22,10 @@ def make_solver(built, solver_kw):
     kw = dict(solver_kw or {})
     kw.setdefault("max_time", 30)
     with boot.quiet():
-        solver = ps.SchedulingSolver(problem=built.pb, **kw)
+        if built.program.get("early_solver") is not None and "early_solver" in built.ns:
+            solver = built.ns["early_solver"]  # created right after the problem, with the program's own keyword arguments
+        else:
+            solver = ps.SchedulingSolver(problem=built.pb, **kw)
         solver.initialize()
     return solver
 
@@ -336,7 +339,7 @@ def analyze(job):
                     kw2 = dict(solver_kw)
                     kw2.setdefault("max_time", 60)
                     try:
-                        sol = ps.SchedulingSolver(problem=b2.pb, **kw2).solve()
+                        sol = (b2.ns["early_solver"] if program.get("early_solver") is not None else ps.SchedulingSolver(problem=b2.pb, **kw2)).solve()
                     except Exception as e:
                         sol, raised = None, f"{type(e).__name__}: {e}"[:200]
                 if raised and stats.admitted > 0:
